@@ -469,12 +469,25 @@ func (f *Follower) connect(l *Leader, first bool) {
 	l.joins++
 	l.mx.Unlock()
 	fid := fmt.Sprintf("%d.%d", f.Partition, f.ID)
-	hookMx.Lock()
-	if pending[z] == nil {
-		pending[z] = map[string][]*link{}
+	// One join of a follower at a time: DB.Follow hands the join to the leader's follower-processing goroutine from a
+	// goroutine of its own, so two joins of the same follower issued back to back (cut and reconnect before any entry
+	// flows, a restarted follow session) could reach the leader in either order - the leader would then keep the
+	// older subscription and the accounting below would attribute its traffic to the wrong link. A real follower
+	// re-joins only after its previous stream has ended.
+	waitUntil := time.Now().Add(30 * time.Second)
+	for {
+		hookMx.Lock()
+		if pending[z] == nil {
+			pending[z] = map[string][]*link{}
+		}
+		if len(pending[z][fid]) == 0 || time.Now().After(waitUntil) {
+			pending[z][fid] = append(pending[z][fid], lk)
+			hookMx.Unlock()
+			break
+		}
+		hookMx.Unlock()
+		time.Sleep(100 * time.Microsecond)
 	}
-	pending[z][fid] = append(pending[z][fid], lk)
-	hookMx.Unlock()
 	cp := *fol // leader copies it anyway
 	var ds []string
 	for _, p := range cp.Partitions {
